@@ -104,13 +104,16 @@ impl Main {
             p
         };
         let lists = request_lists(tier.pick(3, 4));
+        // thorough: up to 4 workers (the stand-in's maximum)
+        let w123: Vec<usize> = tier.pick(vec![1, 2, 3], vec![1, 2, 3, 4]);
+        let w23: Vec<usize> = tier.pick(vec![2, 3], vec![2, 3, 4]);
         let mut cases = vec![];
         for api in APIS {
             match api {
                 Api::ConfigUnbatched => {
                     for l in &lists {
                         for skip in [false, true] {
-                            for w in [1usize, 2, 3] {
+                            for &w in &w123 {
                                 cases.push((api, l.clone(), skip, w));
                             }
                         }
@@ -118,19 +121,19 @@ impl Main {
                 }
                 Api::FilesParallel | Api::Process | Api::FilesBatched => {
                     for l in &lists {
-                        for w in [2usize, 3] {
+                        for &w in &w23 {
                             cases.push((api, l.clone(), false, w));
                         }
                     }
                 }
                 Api::Matching | Api::SearchMulti | Api::ProcessArchives => {
-                    for w in [1usize, 2, 3] {
+                    for &w in &w123 {
                         cases.push((api, vec![], false, w));
                     }
                 }
                 Api::MultiArchive | Api::MultiArchiveMulti => {
                     for name in [P, Q, M] {
-                        for w in [2usize, 3] {
+                        for &w in &w23 {
                             cases.push((api, vec![name], false, w));
                         }
                     }
@@ -426,7 +429,7 @@ fn main() {
             c.extra_cov.insert("configuration_sweep".into(), v["coverage"].clone());
         }
     }
-    c.rule = "case = (parallel entry point, request list drawn from {p, q, duplicate p, missing, unreadable} in every order up to length 3 (quick) / 4 (thorough), skip_errors, workers 1..3); each case runs under loom with the rayon stand-in: every interleaving of task claim/start/finish up to the preemption bound is executed on the real code and compared slot by slot with sequential Archive::read_file; the set of results over all schedules must be a singleton. states = distinct task start/finish orders observed (summed over cases), transitions = schedules executed.".into();
+    c.rule = "case = (parallel entry point, request list drawn from {p, q, duplicate p, missing, unreadable} in every order up to length 3 (quick) / 4 (thorough), skip_errors, workers 1..3 (thorough: 1..4)); each case runs under loom with the rayon stand-in: every interleaving of task claim/start/finish up to the preemption bound is executed on the real code and compared slot by slot with sequential Archive::read_file; the set of results over all schedules must be a singleton. states = distinct task start/finish orders observed (summed over cases), transitions = schedules executed.".into();
     c.assume("rayon honours its documented contract (order-preserving indexed collect, some-error Result collect); the stand-in in /verif/harness-sched/rayon models that contract on loom threads");
     c.assume("with <= 4 items in flight every start/finish order that 32 OS threads could produce is produced by <= 3-4 workers; loom caps a model at 5 threads");
     c.assume("code between two loom operations runs atomically: data races inside a task body are outside this exploration (covered only by the free-running configuration sweep)");
